@@ -36,9 +36,12 @@ class Server:
         self.seed = seed
         self.n = 0
 
-    def ask(self, history, full=False):
+    def ask(self, history, full=False, mid=None):
         self.n += 1
-        self.p.stdin.write(json.dumps({"id": self.n, "history": list(history), "full": full}) + "\n")
+        req = {"id": self.n, "history": list(history), "full": full}
+        if mid is not None:
+            req["mid"] = list(mid)
+        self.p.stdin.write(json.dumps(req) + "\n")
         self.p.stdin.flush()
         line = self.p.stdout.readline()
         if not line:
@@ -173,6 +176,41 @@ def run(tier):
             t.join()
         if errors:
             raise errors[0]
+        # ---- split probes: unrelated activity BETWEEN the construction of a program's objects and its compilation
+        split_base = servers[0].ask((), full=True, mid=())
+        mids = [()] + [(a,) for a in acts]
+        if tier == "thorough":
+            mids += list(itertools.product(acts, repeat=2))
+        pre_hist = [(), ("compile_v6",), ("router_ok",)]
+        rep.bounds["split_mid_sequences"] = len(mids)
+
+        def work_split(si):
+            srv = servers[si]
+            try:
+                jobs_ = [(h, m) for h in pre_hist for m in mids]
+                for ji in range(si, len(jobs_), nserv):
+                    h, m = jobs_[ji]
+                    res = srv.ask(h, full=True, mid=m)
+                    with lock:
+                        rep.add("traces_validated", len(res["probes"]))
+                        rep.add("transitions", max(1, len(h) + len(m)))
+                        for k, text in res["probes"].items():
+                            if text != split_base["probes"][k]:
+                                violations.append({
+                                    "driver": "split", "size": len(h) + len(m),
+                                    "title": "probe %s built across activity %s (after history %s) compiles differently from the same probe built without interruption" % (k, list(m), list(h)),
+                                    "history": list(h), "mid": list(m), "probe": k, "text": text[:6000], "baseline": split_base["probes"][k][:6000],
+                                    "features": {"why": "history dependence (interleaved)", "probe": k.split("@")[0],
+                                                 "equal_up_to_slot_renumbering": equal_up_to_slot_renumbering(text, split_base["probes"][k])}})
+            except BaseException as e:
+                errors.append(e)
+        threads = [threading.Thread(target=work_split, args=(i,)) for i in range(nserv)]
+        for t in threads:
+            t.start()
+        for t in threads:
+            t.join()
+        if errors:
+            raise errors[0]
         # a few histories under the other hash seeds as well
         for srv in others:
             for h in hist[1:1 + len(acts)]:
@@ -205,8 +243,12 @@ def replay(case):
     srv = Server(case.get("seed", "0"))
     base = Server("0")
     try:
-        r = srv.ask(case.get("history", []), full=True)
-        b = base.ask((), full=True)
+        if "mid" in case:
+            r = srv.ask(case.get("history", []), full=True, mid=case["mid"])
+            b = base.ask((), full=True, mid=())
+        else:
+            r = srv.ask(case.get("history", []), full=True)
+            b = base.ask((), full=True)
         k = case.get("probe")
         if k is None:
             return False
